@@ -47,6 +47,15 @@ RULE = ("Samplers: generated axis-aligned boxes (dimension 1-5; unit / centred /
         "ones: radius 1 +- 8e-6, boxes within 8e-6 of the unit cube, parameters a few ulps inside [0,1]; counts 255 / 256 / 257 and (box, sphere, "
         "ball) 65535 / 65536 / 65537; curve degrees 16-18, 32, 33, 64, 66 and 67, 68, 70, 100, patch nets with one direction of degree 17, 33, 67, "
         "68, 70 (about 1.5 % each, kept light: few parameters, small resolutions). "
+        "Parameter sequences of the polyline export (keyword custom_pos, 35 % of the curves): 2-10 parameters of [0,1] sorted / reversed / "
+        "shuffled / with a repeated entry ('custom-order=...'), handed over as list / tuple / numpy array / one-shot generator / list of numpy "
+        "scalars ('custom-form=...'), with n_pts omitted or equal to their number ('custom-n_pts=...'); repeated on the edited net. Class "
+        "'custom-out-of-range' (50 % of the curves, 1-2 requests each, one more after the edits): such a sequence with the first / a middle / the "
+        "last / several / all entries OUTSIDE [0,1] (1e-9 .. 10 beyond an end, one ulp beyond, nan, +-inf, 1e300; 'custom-out@...', "
+        "'custom-out-by<1e-6') in the same container forms - the export has to reject it (any exception; returning a polyline is the violation), "
+        "and the exports that follow show the curve is still usable. Out-of-range parameters of evaluate are also passed as numpy scalars "
+        "('numpy-parameter'), and in 30 % of the curves the documented module function de_casteljau(P, t) is called directly with parameters "
+        "inside (Bernstein value) and outside (InvalidRangeArgumentError) ('de_casteljau-direct'). "
         "numpy.random is seeded from the case. non-trivial = box differs from the unit cube and n>0 / "
         "radius != 1 or centre != 0 (n>0) / >=2 edges or faces and n>0 / degree >= 2 (curves) / n1 != n2 (patches); "
         "distinct = distinct realised cases.")
@@ -62,6 +71,12 @@ ASSUMPTIONS = [
     "after the stretch of stat_share_surface) and there is >= 1 of them; exactly degenerate elements (zero-length edge, zero-area face) are in "
     "the domain of sampling WITHOUT normals (the unchanged library samples the other elements correctly); with return_normals=True a zero-area "
     "face makes face_normals raise FloatingPointError - normals of a degenerate face are undefined, so that combination is not generated",
+    "as_polyline(custom_pos=...) takes any iterable of numbers as the curve parameters of the successive vertices (the code only iterates it once); "
+    "they are 'parameters' in the sense of the statement, so one outside [0,1] has to be rejected as evaluate() rejects it. The export has no "
+    "docstring: only 'raises instead of returning a polyline' is demanded, not the exception class. n_pts is only combined with custom_pos as "
+    "omitted or equal to len(custom_pos); other combinations are unspecified and not generated",
+    "mouette.splines.bezier.de_casteljau is a public documented function (docstring: Raises InvalidRangeArgumentError if t is not in [0;1]); the "
+    "direct call is skipped if the module no longer has that name",
     "box:uniform-spread (>= 100 uniform draws span at least half of every side; false-alarm probability < 1e-27) grounds on the docstring "
     "'uniformly at random inside' the box; the property text itself only demands containment",
 ]
